@@ -33,6 +33,9 @@ def real_cases(pid, tier="thorough"):
             _mk([1, 2, 3, 4, 5], {1: "different", 2: "player_raises", 3: "extractor_raises", 4: "comparator_raises"},
                 rate=2, timeout=2, keep=True),
             _mk([1, 2, 3, 4], {2: "bare:Fixed", 3: "extractor_raises"}, rate=1, timeout=2, keep=False),
+            # the keys of the comparison data vary between the recordings (worker lifetimes of 3: forked copies)
+            _mk(ids6, {3: "different", 6: "different"}, rate=3, timeout=2, keep=True,
+                data={"1": "oa", "2": "", "4": "ob", "5": "ab", "6": ""}),
             # verdict shapes across a real pipe (pickled): full result with a diff, a structured message the framework
             # cannot render (not last), a subclass instance with a diff, a bare value that is no status
             _mk(ids6, {2: "cr:Different:text:1:plain", 3: "cr:Failed:struct:1:plain", 4: "cr:Fixed:none:1:sub",
